@@ -7,6 +7,7 @@ import UscxmlVerif.Properties.C05
 import UscxmlVerif.Proofs.Interval
 import UscxmlVerif.Proofs.ParentsFast
 import UscxmlVerif.Proofs.DownOk
+import UscxmlVerif.Proofs.XorOk
 namespace Driver
 open UscxmlVerif
 
@@ -50,7 +51,7 @@ def coherent (line : String) : String :=
       let c := flatten d late
       let n := c.trans.size
       let k := ((List.range n).filter (fun i => Properties.C05.plainTrans c (Model.Tables.tr c i))).length
-      s!"wfdoc={if Proofs.Flatten.WFDoc d && d.kind == .scxml then 1 else 0} coh={if Proofs.Struct.Coherent c then 1 else 0} ival={if Proofs.Interval.IntervalOK c then 1 else 0} plain={k}/{n} hist={if (List.range c.states.size).any (fun i => (Model.Large.st c i).typ.isHistory) then 1 else 0} entry={if Proofs.EntryClosed.EntryOk c && Proofs.Parents.SelPlain c && Proofs.ParentsFast.SelPlainF c then 1 else 0} down={if Proofs.DownOk.DownOk c then 1 else 0}"
+      s!"wfdoc={if Proofs.Flatten.WFDoc d && d.kind == .scxml then 1 else 0} coh={if Proofs.Struct.Coherent c then 1 else 0} ival={if Proofs.Interval.IntervalOK c then 1 else 0} plain={k}/{n} hist={if (List.range c.states.size).any (fun i => (Model.Large.st c i).typ.isHistory) then 1 else 0} entry={if Proofs.EntryClosed.EntryOk c && Proofs.Parents.SelPlain c && Proofs.ParentsFast.SelPlainF c then 1 else 0} down={if Proofs.DownOk.DownOk c then 1 else 0} xor={if Proofs.XorOk.XorOk c then 1 else 0} init={if (List.range c.states.size).any (fun i => (Model.Large.st c i).typ == .initial) then 1 else 0}"
     | none => "bad-chart"
   | _ => "bad-op"
 
